@@ -135,6 +135,8 @@ def rule_CF(ctx, tier):
         rr.ok("get_auth_method: all 8 credential combinations", sample={"rule": "CF", "auth table (user_empty, password_empty, cookie_empty)": {str(k): v for k, v in table.items()}})
     v = P.require(CFG + "verify")
     errs = [bb for bb in v.rpo() for s in v.blocks[bb]["s"] if s["k"] == "assign" and s["d"] == [0] and s["rv"]["k"] == "agg" and s["rv"].get("variant") == "Err"]
+    # an error propagated with `?` (from a helper that returns Result) is an Err return too
+    errs += [bb for bb, t_ in v.calls() if (call_target(t_) or "").endswith("::from_residual") and t_.get("dest") == [0]]
     oks = [bb for bb in v.rpo() for s in v.blocks[bb]["s"] if s["k"] == "assign" and s["d"] == [0] and s["rv"]["k"] == "agg" and s["rv"].get("variant") == "Ok"]
     def eq_facts(bb):
         out = {}
@@ -177,6 +179,11 @@ def rule_CF(ctx, tier):
                         for s in v.blocks[x]["s"]:
                             if s["k"] == "assign" and s["rv"]["k"] == "use" and "k" in s["rv"]["o"] and "int" in s["rv"]["o"]["k"]:
                                 table[lit] = s["rv"]["o"]["k"]["int"]
+                            elif s["k"] == "assign" and s["rv"]["k"] == "agg" and s["rv"].get("variant") in ("Ok", "Some"):
+                                # `Ok(8332)` when the table lives in a helper that returns a Result / Option
+                                for o_ in s["rv"].get("ops", []):
+                                    if isinstance(o_, dict) and isinstance(o_.get("k"), dict) and "int" in o_["k"]:
+                                        table[lit] = o_["k"]["int"]
     wantn = {"main": 8332, "test": 18332, "regtest": 18443, "signet": 38332}
     if table == wantn:
         rr.ok("network -> default RPC port table %s" % wantn, sample={"rule": "CF", "network table": table})
